@@ -21,8 +21,22 @@ Definition tok_eqb (a b : tok) : bool :=
 Definition canon_tok (k : tok) : tok := match k with KSpace => KText [32] | _ => k end.
 (* an empty grapheme written raw is zero bytes *)
 Definition visible_tok (k : tok) : bool := match k with KText [] => false | _ => true end.
+(* the harness tokenises text with the real parser, which clusters adjacent code points the
+   uniseg way (three lone combining marks written as three cells come back as one Print):
+   model and observation are compared with adjacent raw text joined *)
+Fixpoint merge_text (l : list tok) : list tok :=
+  match l with
+  | [] => []
+  | KText a :: t =>
+      match merge_text t with
+      | KText b :: t' => KText (a ++ b) :: t'
+      | t' => KText a :: t'
+      end
+  | x :: t => x :: merge_text t
+  end.
 Definition toks_eqb (a b : list tok) : bool :=
-  list_eqb tok_eqb (map canon_tok (filter visible_tok a)) (map canon_tok (filter visible_tok b)).
+  list_eqb tok_eqb (merge_text (map canon_tok (filter visible_tok a)))
+                   (merge_text (map canon_tok (filter visible_tok b))).
 
 Definition wtable := list (list Z * Z).
 Fixpoint lookup_w (tbl : wtable) (g : list Z) : Z :=
